@@ -34,6 +34,7 @@ type taskSpec struct {
 	Hook     string            `json:"hook_trigger,omitempty"`
 	HookExit int               `json:"hook_exit,omitempty"`
 	HookEnd  string            `json:"hook_end,omitempty"` // "", exit1, signal, involuntary, never
+	WantCpu  float64           `json:"want_cpu,omitempty"` // more than any agent has: cannot be placed
 }
 
 type wfSpec struct {
@@ -107,7 +108,11 @@ var transitionEvents = []string{"CONFIGURE", "START", "STOP", "RESET"}
 
 func yamlTaskClass(t *taskSpec) string {
 	var b strings.Builder
-	fmt.Fprintf(&b, "name: %s\ncontrol:\n  mode: %s\nwants:\n  cpu: 0.1\n  memory: 64\n", t.Class, t.Mode)
+	cpu := 0.1
+	if t.WantCpu > 0 {
+		cpu = t.WantCpu
+	}
+	fmt.Fprintf(&b, "name: %s\ncontrol:\n  mode: %s\nwants:\n  cpu: %v\n  memory: 64\n", t.Class, t.Mode, cpu)
 	fmt.Fprintf(&b, "command:\n  shell: true\n  value: run-%s\n  arguments: []\n  env: []\n", t.Class)
 	return b.String()
 }
